@@ -45,7 +45,15 @@ var St = &Stats{
 
 var deadline time.Time
 
+// sigLog, when VERIF_SIGLOG is set, receives one line per simulated run
+// (schedule signature, decisions, simulated time): the determinism
+// self-test diffs these files between processes.
+var sigLog *os.File
+
 func init() {
+	if p := os.Getenv("VERIF_SIGLOG"); p != "" {
+		sigLog, _ = os.Create(p)
+	}
 	if v := os.Getenv("VERIF_DEADLINE"); v != "" {
 		if n, err := strconv.ParseInt(v, 10, 64); err == nil {
 			deadline = time.Unix(n, 0)
@@ -84,6 +92,9 @@ func (st *Stats) Record(s *simrt.Sim, faults map[string]int, sample func() inter
 	}
 	h := s.Hash()
 	st.allset[h] = true
+	if sigLog != nil {
+		fmt.Fprintf(sigLog, "%016x %d %d\n", h, s.Steps, int64(s.Now()))
+	}
 	if nf > 0 || s.Preempts >= 1 || s.Switches >= 4 {
 		st.Nontrivial++
 		if !st.sigset[h] {
